@@ -68,7 +68,22 @@ def enumFrom' {α} : Nat → List α → List (Nat × α)
   | _, [] => []
   | n, a :: as => (n, a) :: enumFrom' (n + 1) as
 
+def dkgLine (n : Nat) : String :=
+  ";".intercalate ((List.range n).map fun i => s!"m{i + 1}={showList (dkgNominal.map showCall)}")
+
+def parseDkg (line : String) : Option Nat :=
+  match splitWs line with
+  | ["dkg", n, slow, late] => do
+    let n ← n.toNat?
+    let slow ← slow.toNat?
+    let late ← late.toNat?
+    if n < 2 || n > 5 || slow > n || late > 4 then none else some n
+  | _ => none
+
 def model (line : String) : String :=
+  match parseDkg line with
+  | some n => dkgLine n
+  | none =>
   match parseOp line with
   | none => "bad-op"
   | some op =>
@@ -139,6 +154,10 @@ def parseObs (s : String) : Option (Obs × List (Nat × Nat)) :=
   | _ => none
 
 def monitor (op obs : String) : String :=
+  match parseDkg op with
+  | some n => if obs = dkgLine n then "ok"
+              else "FAIL members-started-at-the-same-block-do-not-issue-the-nominal-block-waits (ExecuteDKG chaining) " ++ obs
+  | none =>
   match parseOp op with
   | none => if obs = "bad-op" then "ok" else "FAIL bad-op"
   | some _ =>
